@@ -162,7 +162,7 @@ def _setup(case, lane):
                 opts = S_FULL if full else S_GENERAL
             else:
                 opts = FIXED if fixed else (FULL if full else GENERAL)
-            mode = opts[m[a] % len(opts)]
+            mode = opts[(m[a] + idx + a) % len(opts)]  # offset: Hypothesis' all-zero first example still mixes styles
             if mode == "center" and (lo[a] + hi[a] - n) % 2:
                 mode = "pos_gm"
 
@@ -356,3 +356,5 @@ SUBS = [
         lanes=("f64", "f32"), f32_fraction=0.25, quick_shards=2,
         rule="random serialisable setup -> JSON -> setup; both placed and run, everything bit-equal"),
 ]
+
+KNOWN_CLASSES = {}
